@@ -25,9 +25,10 @@ pub const K_CHILDSTART: u32 = 17; // first thing a forked child logs
 pub const K_SIGNAL: u32 = 18;
 pub const K_POLL: u32 = 19;
 pub const K_ESCAPE: u32 = 20; // the forked child returned from the library into the harness
-pub const KNAME: [&str; 21] = [
+pub const K_MARK: u32 = 21; // harness marker (e.g. "the drop starts here")
+pub const KNAME: [&str; 22] = [
     "?", "pipe", "fcntl", "dup2", "close", "fork", "chdir", "setuid", "setgid", "setpgid", "execve", "sigmask",
-    "_exit", "read", "write", "waitpid", "kill", "childstart", "signal", "poll", "escape",
+    "_exit", "read", "write", "waitpid", "kill", "childstart", "signal", "poll", "escape", "mark",
 ];
 
 pub const SLEN: usize = 200;
@@ -58,6 +59,9 @@ pub struct Shared {
 pub const NREC: usize = 8192;
 
 pub static mut SH: *mut Shared = std::ptr::null_mut();
+/// what the library is blocked in right now (for the hang watchdog): pid > 0 = waitpid(pid),
+/// -1000 - fd = read(fd), 0 = nothing
+pub static BLOCKED_IN: std::sync::atomic::AtomicI64 = std::sync::atomic::AtomicI64::new(0);
 pub static mut RECORDING: bool = false;
 pub static mut IN_CHILD: u32 = 0; // pid, set in the forked child's copy
 
@@ -262,8 +266,11 @@ unsafe fn h_read(fd: c_int, buf: *mut c_void, n: usize) -> Option<isize> {
     if !RECORDING || fd <= 2 {
         return None;
     }
+    BLOCKED_IN.store(-1000 - fd as i64, Ordering::SeqCst);
     let r = crate::raw::read(fd, buf, n);
     let en = errno_of(r as i64);
+    BLOCKED_IN.store(0, Ordering::SeqCst);
+    crate::raw::set_errno(en);
     rec(K_READ, fd as i64, n as i64, 0, r as i64, en, b"");
     crate::raw::set_errno(en);
     Some(r)
@@ -413,8 +420,11 @@ unsafe fn h_waitpid(pid: c_int, status: *mut c_int, flags: c_int) -> Option<c_in
     if !RECORDING {
         return None;
     }
+    BLOCKED_IN.store(pid as i64, Ordering::SeqCst);
     let r = crate::raw::wait4(pid, status, flags);
     let en = errno_of(r as i64);
+    BLOCKED_IN.store(0, Ordering::SeqCst);
+    crate::raw::set_errno(en);
     rec(K_WAITPID, pid as i64, flags as i64, 0, r as i64, en, b"");
     crate::raw::set_errno(en);
     Some(r)
